@@ -625,6 +625,57 @@ func sameMultisetCnt(vals []E, cnt map[E]int, held int) bool {
 	return true
 }
 
+
+// FuzzHeap (thorough tier): coverage-guided fuzzing over operation scripts (single and batched
+// pushes, pop, peek, delete, convert, merge/meld with a second heap, clear), same run oracle.
+func FuzzHeap(f *testing.F) {
+	f.Add(true, []byte{0, 5, 0, 3, 6, 20, 1, 0, 3, 5, 4, 0, 1, 0})
+	f.Add(false, []byte{6, 40, 7, 30, 1, 0, 1, 0, 2, 0})
+	f.Fuzz(func(t *testing.T, max bool, data []byte) {
+		if len(data) > 64 {
+			data = data[:64]
+		}
+		c := Case{Max: max, Full: true}
+		vals := func(seed, n int) []E {
+			var vs []E
+			for j := 0; j < n; j++ {
+				vs = append(vs, E{K: (seed*7 + j*13) % 23, ID: j % 2})
+			}
+			return vs
+		}
+		for i := 0; i+1 < len(data); i += 2 {
+			k := int(data[i+1])
+			switch data[i] % 9 {
+			case 0:
+				c.Ops = append(c.Ops, Op{K: "push", V: E{K: k % 23, ID: k / 128}})
+			case 1:
+				c.Ops = append(c.Ops, Op{K: "pop"})
+			case 2:
+				c.Ops = append(c.Ops, Op{K: "peek"})
+			case 3:
+				c.Ops = append(c.Ops, Op{K: "delete", V: E{K: k % 23, ID: k / 128}})
+			case 4:
+				c.Ops = append(c.Ops, Op{K: "convert"})
+			case 5:
+				if k%8 == 0 {
+					c.Ops = append(c.Ops, Op{K: "clear"})
+				}
+			case 6:
+				c.Ops = append(c.Ops, Op{K: "pushN", Vals: vals(k, k%96)})
+			case 7:
+				c.Ops = append(c.Ops, Op{K: "merge", Vals: vals(k, k%64)})
+			default:
+				c.Ops = append(c.Ops, Op{K: "meld", Vals: vals(k, k%64)})
+			}
+		}
+		if len(c.Ops) == 0 {
+			return
+		}
+		w := core.Probe(func(sig, detail string) { t.Fatalf("VERIF-SIG %s\nVERIF-CASE %s\n%s", sig, core.JSON(c), detail) })
+		run(w, c)
+	})
+}
+
 func TestProp(t *testing.T) {
 	r := core.Start(t, "C03")
 	defer r.Finish()
